@@ -1008,6 +1008,64 @@ def _config_histories(chk):
              "hiten.algorithms.types.services.orbits:_OrbitContinuationService.continuation_config"], "B4 exact evaluation", th_generate)
 
 
+_REPLAY_CM_HAM_DEGREE = """
+import warnings, logging
+warnings.filterwarnings("ignore"); logging.disable(logging.CRITICAL)
+from hiten import System
+def cm():
+    return System.from_bodies("earth", "moon").get_libration_point(1).get_center_manifold(degree=4)
+A = cm(); A.hamiltonian(3); A.degree = 4; A.hamiltonian(3)
+B = cm(); B.hamiltonian(3)
+print("history hamiltonian(3); degree = 4; hamiltonian(3): degree", A.degree, "| fresh manifold of degree 4 after hamiltonian(3): degree", B.degree)
+print("CONFIRMED" if A.degree != B.degree else "NOT-CONFIRMED")
+"""
+
+
+def _cm_hamiltonian_history(chk):
+    """hamiltonian(d) is documented to make d the current degree: that effect must not depend on whether the entry was cached"""
+    import itertools
+    import hiten.algorithms.types.services.base as sb
+    import hiten.algorithms.types.services.center as sc
+    from pyvc.core import real_self
+
+    def make():
+        pipes = _Obj(get=lambda point, degree: _Obj(get_hamiltonian=lambda form, degree=degree: ("H", form, degree)))
+        svc = real_self(sc._CenterManifoldDynamicsService, _point="POINT", _degree=4, _ham_pipeline=pipes, _hamsys=None)
+        sb._DynamicsServiceBase.__init__(svc, "CM")
+        return svc
+
+    def apply(svc, op):
+        k, d = op
+        if k == "ham":
+            r = sc._CenterManifoldDynamicsService.hamiltonian(svc, d)
+            return (r, svc.degree)
+        sc._CenterManifoldDynamicsService.degree.fset(svc, d)
+        return (None, svc.degree)
+
+    def th():
+        alphabet = [("ham", 3), ("ham", 4), ("ham", 5), ("degree", 3), ("degree", 4)]
+        for L in (1, 2, 3, 4):
+            for hist in itertools.product(alphabet, repeat=L):
+                svc = make()
+                for op in hist[:-1]:
+                    apply(svc, op)
+                before = svc.degree
+                got = apply(svc, hist[-1])
+                twin = make()
+                sc._CenterManifoldDynamicsService.degree.fset(twin, before)      # fresh object in the same logical state
+                want = apply(twin, hist[-1])
+                if got != want:
+                    raise Refuted("centre manifold: the effect of an operation depends on the cache history",
+                                  f"history {list(hist)}: the last operation (from degree {before}) gives (value, degree) = {got}; "
+                                  f"on a fresh manifold of degree {before} it gives {want}",
+                                  replay=_REPLAY_CM_HAM_DEGREE, inputs={"history": [list(o) for o in hist]})
+    chk.obl("centre manifold hamiltonian(d) / degree: over all histories of length <= 4 value and current degree after the last "
+            "operation equal those of a fresh manifold in the same logical state", "K2 postconditions (closed histories, "
+            "bounded-exhaustive)", ["hiten.algorithms.types.services.center:_CenterManifoldDynamicsService.hamiltonian",
+                                    "hiten.algorithms.types.services.center:_CenterManifoldDynamicsService.pipeline_for_degree"],
+            "B4 exact evaluation", th)
+
+
 def _primitives(chk):
     import hiten.algorithms.types.services.base as sb
 
@@ -1185,6 +1243,7 @@ def run(chk):
     _stability_histories(chk)
     _cm_map_degree_history(chk)
     _config_histories(chk)
+    _cm_hamiltonian_history(chk)
     _pickle_histories(chk)
     if chk.tier == "thorough":
         _io_witness(chk)
